@@ -40,7 +40,7 @@ WORKERS = {"quick": 1, "thorough": 14}
 def gen_cases(ctx):
     rng = ctx.rng
     names = ["disjunctive", "agent_task", "with_jobs", "complete", "custom"]
-    for i in range(ctx.scale(5000, 120000)):
+    for i in range(ctx.scale(5000, 720000)):
         c = gen_history_case(rng, classes=gen.POSITIVE_CLASSES, max_jobs=rng.choice([2, 3, 4, 5]),
                              max_machines=rng.choice([2, 3, 4]), filters=False)
         c["filter"] = rng.choice([None, {"names": ["dominated_operations"], "form": "function"}])
